@@ -3,7 +3,7 @@ From Coq Require Import ZArith.
 From IV Require Import Base.Bytes Model.StoreSpec Model.Retention Model.RetentionLoop Proofs.StoreSpecFacts Proofs.RetentionLoop.
 Theorem loop_deletes_expired : forall cfg period enum,
   (forall y0 e evs1 evs2 ts,
-     (forall st x, In x (live st) -> In (e_mb x) (enum st)) ->
+     (forall st x, SInv st -> In x (live st) -> In (e_mb x) (enum st)) ->
      SInv (s_st (l_sys y0)) -> l_mode y0 = LWait ->
      In e (live (s_st (l_sys y0))) -> (m_date (e_msg e) < l_now y0 - period)%Z ->
      l_mode (lrun cfg period enum y0 evs1) = LCheck -> hd_error (l_done (lrun cfg period enum y0 evs1)) = Some (ts, false) ->
@@ -11,9 +11,9 @@ Theorem loop_deletes_expired : forall cfg period enum,
   (forall y tf, l_mode y = LWait -> s_cancel (l_sys y) = false -> (l_last y + minute <= l_now y)%Z ->
      l_mode (loop_step cfg period enum y tf) = LScan (l_now y - period) /\ l_starts (loop_step cfg period enum y tf) = l_now y :: l_starts y /\
      s_todo (l_sys (loop_step cfg period enum y tf)) = enum (s_st (l_sys y)) /\ s_phase (l_sys (loop_step cfg period enum y tf)) = PIdle) /\
-  (forall c s, s_cancel s = false -> (exists b, s_phase s = PDone b) \/
-     lex_lt (scan_measure (sc_step cfg c s)) (scan_measure s) \/
-     (s_phase s = PIdle /\ exists mb r, s_todo s = mb :: r /\ s_phase (sc_step cfg c s) = PBox mb (snapshot (s_st s) mb) /\ s_todo (sc_step cfg c s) = r)).
+  (forall c tf s, s_cancel s = false -> (exists b, s_phase s = PDone b) \/
+     lex_lt (scan_measure (sc_step cfg c tf s)) (scan_measure s) \/
+     (s_phase s = PIdle /\ exists mb r, s_todo s = mb :: r /\ s_phase (sc_step cfg c tf s) = PBox mb (snapshot (s_st s) mb) /\ s_todo (sc_step cfg c tf s) = r)).
 Proof.
   intros cfg period enum. split; [exact (RetentionLoop.loop_deletes_expired cfg period enum)|].
   split; [exact (loop_scan_due cfg period enum)|exact (scan_progress cfg)].
